@@ -225,7 +225,7 @@ def _handle_keyword(keyword, typ):
 
     return "{type}[{types}]".format(
         type=type_,
-        types=", ".join(quote_f(get_value(elt)) for elt in keyword.value.elts),
+        types=", ".join(str(quote_f(get_value(elt))) for elt in keyword.value.elts),
     )
 
 
